@@ -5,6 +5,8 @@ R09.pre    in-place translate/scale/shear/rotate(44) == set*(arg) * M ; rotate(2
 R09.rot    rotation builders are orthonormal with determinant +1 modulo sin^2+cos^2=1, |unit axis|=1
 R09.frame  alignZAxisWithTargetDir / rotationMatrixWithUpDir / computeLocalFrame / firstFrame...:
            orthonormal right-handed frames on the generic path and on every degenerate-input path
+           nextFrame (Mi = I, unit tangents): rotation carrying ti onto tj and pi onto pj; general Mi: Mi * that matrix;
+           lastFrame = Mi * translate(pj - pi); firstFrame: x axis = unit tangent, y axis normal to the three points, origin pi
 R09.point  translation() returns the translation row
 """
 import itertools
